@@ -402,13 +402,16 @@ class History(Machine):
                                                                         "clock_freeze", "gc", "restart", "restart"])})
                 continue
             if r < 0.20:
-                ops.append({"kind": "abort", "i": i, "how": s.choice(["invalid_desc", "invalid_desc2", "missing_file"])})
+                ops.append({"kind": "abort", "i": i, "how": s.choice(["invalid_desc", "invalid_desc2", "missing_file",
+                                                                        "boot_duplicate", "boot_no_outdir", "merge_duplicate",
+                                                                        "sign_missing_key"])})
                 continue
             idx = last if (last is not None and s.chance(0.2)) else s.below(len(pool))
             variant = "twice" if pool[idx]["kind"] == "lib_obj" and s.chance(0.5) else None
             ops.append({"kind": "step", "i": i, "pool": idx, "variant": variant})
             last = idx
-        return {"seed": seed, "swarm": swarm, "ops": ops, "faults": [], "bases": bases, "pool": pool}
+        return {"seed": seed, "swarm": swarm, "ops": ops, "faults": [], "bases": bases, "pool": pool,
+                "b_boot": b_boot, "b_cache": b_cache, "b_env": b_env}
 
     def place_faults(self, plan, counts, prop):
         s = Stream(plan["seed"], "faults")
@@ -531,8 +534,28 @@ class History(Machine):
             d = bad["inputs"][-1]["desc"]
             d["SUIT_Envelope_Tagged"]["suit-manifest"]["suit-no-such-member"] = 1
             d["SUIT_Envelope_Tagged"]["suit-authentication-wrapper"]["SuitDigest"]["suit-digest-algorithm-id"] = "cose-alg-md5"
-        else:
+        elif op["how"] == "missing_file":
             bad["inputs"] = [i for i in bad["inputs"] if i["type"] != "blob"]
+        elif op["how"] in ("boot_duplicate", "boot_no_outdir"):
+            # image boot that dies after the first envelope was taken in: the same envelope twice / no output directory
+            outdir = f"{W}/out" if op["how"] == "boot_duplicate" else f"{W}/no/such/dir"
+            bad = {"kind": "cli", "label": "abort-" + op["how"], "seed": plan["seed"],
+                   "argv": ["image", "boot", "--input-file", f"{W}/in/e.suit", "--storage-output-directory", outdir]
+                   + (["--input-file", f"{W}/in/e.suit"] if op["how"] == "boot_duplicate" else []),
+                   "inputs": [{"rel": "in/e.suit", "type": "base", "base": plan["b_boot"], "file": "e.suit"}]}
+        elif op["how"] == "merge_duplicate":
+            bad = {"kind": "cli", "label": "abort-merge-duplicate", "seed": plan["seed"],
+                   "argv": ["cache_create", "merge", "--output-file", f"{W}/out/c.bin", "--input", f"{W}/in/c.bin",
+                            "--input", f"{W}/in/c.bin"],
+                   "inputs": [{"rel": "in/c.bin", "type": "base", "base": plan["b_cache"], "file": "c.bin"}]}
+        elif op["how"] == "sign_missing_key":
+            bad = {"kind": "cli", "label": "abort-sign-missing-key", "seed": plan["seed"],
+                   "argv": ["sign", "single-level", "--input-envelope", f"{W}/in/e.suit", "--output-envelope", f"{W}/out/e.suit",
+                            "--key-name", "no_such_key", "--key-id", "1", "--alg", "eddsa", "--context", f"{W}/in",
+                            "--sign-script", world.SIGN_SCRIPT, "--kms-script", world.KMS_SCRIPT],
+                   "inputs": [{"rel": "in/e.suit", "type": "base", "base": plan["b_env"], "file": "e.suit"}]}
+        if any(i["type"] == "base" and i["file"] not in model["bases"][i["base"]] for i in bad["inputs"]):
+            return []
         o, _, _ = exec_task(host, bad, "aborted", model["bases"])
         self.note(model, o)
         model["pending"] = "abort:" + op["how"]
